@@ -19,7 +19,7 @@ pub static DEF: PropDef = PropDef {
     id: "C06",
     level: "exploration",
     rule: "each case: one input — valid documents mixing known- and unknown-size masters at several depths, the same with one or two known elements of the specification inserted at random (mostly invalid) places before hostile reference encoding, 1-3 byte/structure mutations (subtree copies and size rewrites are the productive ones), truncations, adversarial headers, mid-document suffixes — parsed by the real iterator with NO errors tolerated through a scripted short-read source. The Ok items before the first error are replayed against an independent checker: every End matches the innermost open master (implied ancestors of a mid-document start included, reported at offset 0); no raw tags; once the first non-global element has fixed the position every element's declared path must match the chain of open masters (reference matcher); every element lies inside every enclosing known-size master; a known-size master's End comes exactly when its range is exhausted (earlier only at end of input); an unknown-size master's End must be justified by the next element (sibling / ancestor instance / root, transitively through directly enclosing unknown-size masters; or — for global masters — an element that is not a valid child of the open chain but is valid once the closed masters are removed), by an exhausted known-size ancestor, or by end of input; on a clean end the stack must be empty (every open master got an End, innermost first, never a Start). distinct = (input kind, max depth, unknown-size masters seen, checks exercised); non-trivial iff >= 2 nesting levels were open at some point and >= 1 path check happened under an unknown-size master.",
-    assumptions: &["reference path semantics (spec.rs)", "items after the first error are not judged", "parses are unbuffered (Full items are C08's subject)"],
+    assumptions: &["reference path semantics (spec.rs)", "items after the first error are not judged", "the full checker runs on unbuffered parses; a third of the cases additionally parse with a random buffered set and replay the flattened items through a structure-only checker (nesting, ids, declared paths; no extents, because children of a Full carry no offsets)"],
     cases_quick: 1_000_000,
     cases_thorough: 8_000_000,
     floors: &[("path_checks", 100_000), ("path_checks_under_unknown_size_master", 5_000), ("containment_checks", 50_000), ("ends_checked", 50_000), ("unknown_size_closings_justified", 2_000), ("mid_document_starts", 500), ("distinct_nontrivial", 500)],
@@ -223,6 +223,52 @@ fn check(c: &mut Case, spec: &Spec, bytes: &[u8], p: &Parse) -> Option<Verdict> 
     None
 }
 
+/// Structure-only replay (no offsets): used on the flattened output of *buffered* strict parses, whose children carry
+/// no offsets. Nesting, ids and declared paths must still be right.
+fn check_structure(spec: &Spec, items: &[Item], clean: bool) -> Option<(String, String, usize)> {
+    let mut stack: Vec<u64> = Vec::new();
+    let mut fixed = false;
+    for (i, item) in items.iter().enumerate() {
+        match item {
+            Item::End(id) => match stack.last() {
+                Some(top) if top == id => {
+                    stack.pop();
+                }
+                Some(top) => return Some(("end-mismatch".into(), format!("End({:x}) but the innermost open master is {:x}", id, top), i)),
+                None => return Some(("end-without-open-master".into(), format!("End({:x}) with no master open", id), i)),
+            },
+            Item::Full(..) => return None,
+            other => {
+                if other.is_raw() {
+                    return Some(("raw-tag-in-strict-mode".into(), format!("raw tag {}", other.short()), i));
+                }
+                let e = match spec.get(other.id()) {
+                    Some(e) => e,
+                    None => return Some(("unknown-id-in-strict-mode".into(), other.short(), i)),
+                };
+                if !fixed && !e.is_global() {
+                    let path_ids: Vec<u64> = e.path.iter().map(|p| match p { crate::spec::PP::Id(i) => *i, _ => 0 }).collect();
+                    let implied: Vec<u64> = if path_ids.ends_with(&stack) { path_ids[..path_ids.len() - stack.len()].to_vec() } else { path_ids.clone() };
+                    let mut ns = implied;
+                    ns.append(&mut stack);
+                    stack = ns;
+                    fixed = true;
+                }
+                if fixed && !ref_path_match(&e.path, &stack) {
+                    return Some(("path-mismatch".into(), format!("{} (declared path {}) under open masters {:x?}", other.short(), spec.path_str(e), stack), i));
+                }
+                if e.ty == Ty::Master {
+                    stack.push(e.id);
+                }
+            }
+        }
+    }
+    if clean && !stack.is_empty() {
+        return Some(("open-master-at-clean-end".into(), format!("{} masters never received their End", stack.len()), items.len()));
+    }
+    None
+}
+
 /// Insert 1-2 random known elements of the spec at random places of the tree (usually invalid there).
 fn insert_misplaced(rng: &mut Rng, spec: &Spec, nodes: &mut Vec<Node>) {
     let n = rng.urange(1, 2);
@@ -278,6 +324,30 @@ fn run(c: &mut Case) {
             inp.to_json().set("config", cfg.to_json()).set("parse", p.to_json(80)).set("violating_item_index", J::u(v.at)).set("problem", J::s(v.msg)),
         );
         return;
+    }
+    // the same input with a random set of buffered masters: flattened Full items must still be well nested and path-valid
+    if c.rng.chance(1, 3) {
+        let masters = inp.spec.masters();
+        let buffered: Vec<u64> = match c.rng.below(3) {
+            0 => vec![*c.rng.pick(&masters)],
+            1 => masters.iter().filter(|_| c.rng.chance(1, 2)).copied().collect(),
+            _ => masters.clone(),
+        };
+        let bcfg = RCfg { buffered, capacity: None, ..cfg.clone() };
+        let bp = crate::rd::parse_slice(&inp.bytes, &bcfg);
+        c.eval();
+        if !matches!(bp.end, Ev::Caught(_)) {
+            c.count("buffered_parses_replayed");
+            let flat = crate::spec::flatten(&bp.values());
+            if let Some((sig, msg, at)) = check_structure(&inp.spec, &flat, bp.clean()) {
+                c.violation(
+                    format!("C06/buffered/{}/{}", sig, inp.kind.split('/').next().unwrap_or("")),
+                    msg.clone(),
+                    inp.to_json().set("config", bcfg.to_json()).set("parse", bp.to_json(80)).set("violating_flattened_item_index", J::u(at)).set("problem", J::s(msg)),
+                );
+                return;
+            }
+        }
     }
     let after_unknown = *c.counters.get("path_checks_under_unknown_size_master").unwrap_or(&0);
     let depth = *c.counters.get("max_depth_seen").unwrap_or(&0);
